@@ -61,7 +61,7 @@ func bound(tier string) string {
 	}
 	return "methods: all 10 DAGs on 3 flavors x every set of <= 3 of the 12 (flavor x primary/before/after/whopper) definitions x ALL definition orders; " +
 		"the 4-flavor DAGs (<= 3 ordered components) whose last flavor inherits all others x every set of <= 2 of 16 definitions x ALL orders, and x every set of 3 " +
-		"primary/before/whopper definitions restricted to early/late orders (each method directly after its defflavor or after all defflavors, late ones in every permutation). " +
+		"primary/before/whopper or primary/after definitions restricted to early/late orders (each method directly after its defflavor or after all defflavors, late ones in every permutation). " +
 		"variables: all 10 DAGs on 3 flavors x 9 option tokens per flavor (x default, bare gettable/settable/inittable, init keyword, second variable y), every defflavor order"
 }
 
@@ -122,6 +122,7 @@ func enumerate(tier string, emit func(string)) {
 	emitV(allDags(3, 3, false), tokens9)
 	emitM(allDags(4, 3, true), 0, 2, "all", allKinds)
 	emitM(allDags(4, 3, true), 3, 3, "el", "pbw")
+	emitM(allDags(4, 3, true), 3, 3, "el", "pa")
 }
 
 // ------------------------------------------------------------------- running
